@@ -184,7 +184,7 @@ type decodeArgs struct {
 	V    json.RawMessage `json:"v"`
 }
 
-var decodeTypes = []string{"Mapping", "MappingWithEquals", "Labels", "HostsList", "StringList", "StringOrNumberList", "HealthCheckTest", "Options", "DeviceCount", "UlimitsConfig", "ShellCommand"}
+var decodeTypes = []string{"Mapping", "MappingWithEquals", "Labels", "HostsList", "StringList", "StringOrNumberList", "HealthCheckTest", "Options", "DeviceCount", "UlimitsConfig", "ShellCommand", "SSHConfig"}
 
 func strPtrMap(m map[string]*string) any {
 	out := map[string]any{}
@@ -258,14 +258,19 @@ func realDecode(raw json.RawMessage) any {
 		err = x.DecodeMapstructure(v)
 		res = strList(x)
 	case "ShellCommand":
-		if _, isStr := v.(string); isStr {
-			return map[string]any{"bad": "type"} // string form: go-shellwords, outside the model
-		}
 		var x types.ShellCommand
 		err = x.DecodeMapstructure(v)
 		if x != nil {
 			res = strList(x)
 		}
+	case "SSHConfig":
+		var x types.SSHConfig
+		err = x.DecodeMapstructure(v)
+		l := []any{}
+		for _, k := range x {
+			l = append(l, map[string]any{"id": k.ID, "path": k.Path})
+		}
+		res = l
 	case "DeviceCount":
 		var x types.DeviceCount
 		err = x.DecodeMapstructure(v)
